@@ -218,6 +218,121 @@ def check_summaries(ctx: Ctx):
         ctx.decide("R20.6", f, f.node, f"{f.qual}:repeatable", "a summary requested after other queries is unchanged", reducer_verdict("AVG", fields["avg"], (1.0, 3.0, 8.0)), {"got": repr(fields["avg"])})
 
 
+# table operations that hand back their ROWS in an order of their own (sorted by key), not in the order they were
+# given (trusted model of pandas).  sorted() / set() / np.unique are left out on purpose: the package uses them for
+# lists of keys (group and metric names), whose order is not a row order.
+_REORDERING = {"pivot", "pivot_table", "groupby", "sort_values", "sort_index", "unstack", "crosstab", "value_counts"}
+_REALIGNING = {"reindex", "loc"}
+
+
+def _constructor_sites(prog, cls):
+    import ast
+
+    out = []
+    for f in prog.package_functions():
+        for c in prog.calls_in(f):
+            r = prog.resolve_class_expr(f.module, c.func) if isinstance(c.func, (ast.Name, ast.Attribute)) else None
+            if r is cls or (isinstance(c.func, ast.Name) and c.func.id == "cls" and f.cls is cls):
+                out.append((f, c))
+    return out
+
+
+def _reordered_names(fnode):
+    """local names bound (directly, or through other locals / loops / item stores) to data that went through a
+    re-ordering library operation without being put back into a given order (reindex / .loc[...]) -> the operation"""
+    import ast
+
+    def op_of(e):
+        """the re-ordering operation an expression goes through last, unless realigned afterwards (outermost first)"""
+        found = None
+        for n in ast.walk(e):
+            if isinstance(n, ast.Call):
+                name = n.func.attr if isinstance(n.func, ast.Attribute) else n.func.id if isinstance(n.func, ast.Name) else None
+                if name in _REORDERING:
+                    found = found or (name, n)
+        if found is None:
+            return None
+        # realigned: the re-ordering call sits inside the receiver of a reindex(...) / .loc[...]
+        for n in ast.walk(e):
+            if isinstance(n, ast.Call) and isinstance(n.func, ast.Attribute) and n.func.attr == "reindex" and any(m is found[1] for m in ast.walk(n.func.value)):
+                return None
+            if isinstance(n, ast.Subscript) and isinstance(n.value, ast.Attribute) and n.value.attr == "loc" and any(m is found[1] for m in ast.walk(n.value.value)):
+                return None
+        return found[0]
+
+    taint = {}
+    changed = True
+    while changed:
+        changed = False
+        for st in ast.walk(fnode):
+            tgt_val = []
+            if isinstance(st, ast.Assign):
+                tgt_val = [(t, st.value) for t in st.targets]
+            elif isinstance(st, ast.AnnAssign) and st.value is not None:
+                tgt_val = [(st.target, st.value)]
+            elif isinstance(st, ast.For):
+                tgt_val = [(st.target, st.iter)]
+            elif isinstance(st, ast.comprehension):
+                tgt_val = [(st.target, st.iter)]
+            for t, v in tgt_val:
+                op = op_of(v)
+                if op is None:
+                    used = [n.id for n in ast.walk(v) if isinstance(n, ast.Name) and n.id in taint]
+                    # realignment of a tainted local
+                    real = any((isinstance(n, ast.Call) and isinstance(n.func, ast.Attribute) and n.func.attr == "reindex") or (isinstance(n, ast.Subscript) and isinstance(n.value, ast.Attribute) and n.value.attr == "loc") for n in ast.walk(v))
+                    op = taint[used[0]] if used and not real else None
+                if op is None:
+                    continue
+                names = [n.id for n in ast.walk(t) if isinstance(n, ast.Name) and isinstance(n.ctx, ast.Store)]
+                if isinstance(t, ast.Subscript):
+                    root = t.value
+                    while isinstance(root, ast.Subscript):
+                        root = root.value
+                    if isinstance(root, ast.Name):
+                        names.append(root.id)
+                for nm in names:
+                    if nm not in taint:
+                        taint[nm] = op
+                        changed = True
+    return taint
+
+
+def check_row_alignment(ctx: Ctx):
+    """R20.7: wherever a statistic object is built, its subject list and its value lists follow the same row order.
+    A value table that went through a re-ordering library operation (pivot, groupby, sort, unique, set ...) must be
+    put back into the subject list's order (reindex / .loc), or the subject list must come from that same table."""
+    import ast
+
+    prog = ctx.prog
+    cls = prog.cls("panoptica_statistics:Panoptica_Statistic")
+    init = cls.lookup("__init__")
+    pn = [p.name for p in init.call_params]
+    sp = next((x for x in pn if "subj" in x.lower() or "name" in x.lower()), None)
+    vp = next((x for x in pn if "value" in x.lower() or "dict" in x.lower()), None)
+    if sp is None or vp is None:
+        raise AnchorMissing(f"{init.qual}: subject list / value table parameters not recognised in {pn}")
+    probe = ast.parse("def f(df):\n    names = list(dict.fromkeys(df['s'].tolist()))\n    wide = df.pivot(index='s', columns='k', values='v')\n    vd = {}\n    for k in wide.columns:\n        vd[k] = wide[k].tolist()\n    return names, vd\n\ndef g(df):\n    names = list(dict.fromkeys(df['s'].tolist()))\n    wide = df.pivot(index='s', columns='k', values='v').reindex(names)\n    vd = {}\n    for k in wide.columns:\n        vd[k] = wide[k].tolist()\n    return names, vd\n")
+    t0, t1 = _reordered_names(probe.body[0]), _reordered_names(probe.body[1])
+    if t0.get("vd") != "pivot" or "names" in t0 or "vd" in t1:
+        ctx.undecided("R20.7.floor", None, None, "floor:R20.7", f"the built-in examples are not judged as expected ({t0}, {t1}): rule broken")
+        return
+    sites = _constructor_sites(prog, cls)
+    if not sites:
+        raise AnchorMissing("no construction site of the statistic object")
+    for f, c in sites:
+        b = dict(zip(pn, c.args))
+        b.update({k.arg: k.value for k in c.keywords if k.arg})
+        se, ve = b.get(sp), b.get(vp)
+        construct = f"{f.qual}:{norm(c)[:50]}"
+        if se is None or ve is None:
+            ctx.undecided("R20.7", f, c, construct, "subject list / value table argument not found at the construction site")
+            continue
+        taint = _reordered_names(f.node)
+        vt = next((taint[n.id] for n in ast.walk(ve) if isinstance(n, ast.Name) and n.id in taint), None)
+        st_ = next((taint[n.id] for n in ast.walk(se) if isinstance(n, ast.Name) and n.id in taint), None)
+        ctx.decide("R20.7", f, c, construct, "subject list and value lists follow the same row order (no re-ordering library operation on one of them only)", not (vt is not None and st_ is None), {"values_went_through": vt, "subjects_went_through": st_} if vt or st_ else None)
+
+
 def _run_rule(ctx, name, fn):
     """a sub-rule that cannot be evaluated is recorded as undecided; the remaining rules still run"""
     try:
@@ -229,6 +344,7 @@ def _run_rule(ctx, name, fn):
 
 def check(ctx: Ctx):
     _run_rule(ctx, "check_summaries", check_summaries)
+    _run_rule(ctx, "R20.7", check_row_alignment)
     _run_rule(ctx, "check_roundtrip", c18.check_roundtrip)  # R20.5 = R18.4: non-finite / missing cells become missing at load time
     # "the recorded values": a statistic is made from the file as it is now - the aggregator keeps
     # no parsed copy between calls (other processes append rows it would never see, R15.6)
